@@ -303,6 +303,9 @@ def run(run: Run):
     render_safety(run)
     types_module_injectivity(run)
     bounded_filenames(run)
+    run.native_standin("props.C11_native", "options_bounded",
+                       "BOUNDED: the real Options.build over all option strings of <= 3 items from a 12-item alphabet (repeated scalar overrides, list-valued namespace, "
+                       "flags, unknown keys, blanks): last scalar value wins, namespace values concatenate, unknown items are ignored", group="native.C11:options")
     run.native_standin("props.C11_native", "scenarios", "requests over namespaces / versions / target and dependency files / option strings: file set checked clause by clause")
     run.not_decided.append("Naming.build's regex-based package parsing and API.build's file flags are exercised by the native stand-in only")
 
@@ -320,6 +323,8 @@ def replay(path):
     import json
     from vf.genlab import run_isolated
     f = run_isolated("props.C11_native", "scenarios")
+    _g = run_isolated("props.C11_native", "options_bounded")
+    f = {"cases": f.get("cases", 0) + _g.get("cases", 0), "failures": list(f["failures"]) + list(_g["failures"])}
     fails = [x for x in f["failures"] if not x.get("known")]
     print("file-set scenarios ->", json.dumps(fails[:4]) if fails else "conform (known findings aside)")
     return 1 if fails else 0
